@@ -161,3 +161,37 @@ pub fn build_node(c: &NodeCfg) -> Node {
         name: c.name,
     }
 }
+
+/// Checksum capability settings of two peers, off the default in one run out of a few: each node's five
+/// capabilities (ipv4, udp, tcp, icmpv4, icmpv6) drawn freely, then made compatible - what one side leaves to its
+/// device on transmit (emitted unchecksummed here) the other side must not verify. Returns, per node, which
+/// checksums it verifies in software on receive (for the link's damage gating).
+pub fn draw_checksum_caps(tape: &mut crate::tape::Tape, cfgs: &mut [NodeCfg; 2]) -> [[bool; 5]; 2] {
+    for c in cfgs.iter_mut() {
+        if tape.draw(8) == 7 {
+            for k in 0..5 {
+                c.csum[k] = tape.draw(4) as u8;
+            }
+        }
+    }
+    for k in 0..5 {
+        for i in 0..2 {
+            if cfgs[i].csum[k] >= 2 {
+                let o = 1 - i;
+                cfgs[o].csum[k] = match cfgs[o].csum[k] {
+                    0 => 1,
+                    2 => 3,
+                    x => x,
+                };
+            }
+        }
+    }
+    let verifies = |c: &NodeCfg| -> [bool; 5] {
+        let mut v = [false; 5];
+        for k in 0..5 {
+            v[k] = c.csum[k] == 0 || c.csum[k] == 2;
+        }
+        v
+    };
+    [verifies(&cfgs[0]), verifies(&cfgs[1])]
+}
